@@ -8,6 +8,11 @@ Model of sender authorisation:
       `(*state).CheckSender`                                           → `checkSender`
       `(*state).CheckBody`                                             → `checkBody`
 * `framework/config/module/check_action.go`  `FailAction.Apply`        → `FailAction.apply`
+* `internal/check/authorize_sender/authorize_sender.go`  `(*Check).Init` → `Directives`, `Directives.cfg` (the defaults of
+  the directives that are not written: check_header yes, tables identity, actions reject)
+* `internal/table/file.go`  `readFile` (well-formed files), `Lookup`/`LookupMulti`, `Init`, `reload` → `fileLookup`, `fileTable`,
+  `FileState.init`, `FileState.step` (the time-stamp guards of `reload` are environment: the harness gives every
+  edit a newer, old-enough stamp)
 * `internal/endpoint/smtp/submission.go`  `submissionPrepare`          → `submissionWrites` (frame: which fields it writes)
   (the `ReasonOverride` branch only rewrites code/text of a non-nil reason; not modelled)
 
@@ -265,6 +270,98 @@ def checkBody (c : Cfg) (conn : Option Str) (h : Header) : Result :=
             let res2 := authzSender c authName sender
             if res2.reason.isNone then res2 else refuse c .noMatch
           else refuse c .noMatch
+
+/-! ### `(*Check).Init`: the configuration block
+
+Every directive may be left out; `Init` registers a default for each (`cfg.Bool("check_header", false, true, …)`,
+`cfg.Custom(…, func() { return &table.Identity{} }, …)`, `func() { return modconfig.FailAction{Reject: true} }`).
+The default of one directive does not look at any other directive.  (The normalisers default to
+`auto`; which function a name stands for is a parameter anyway.) -/
+
+structure Directives where
+  checkHeader : Option Bool := none
+  emailPrepare : Option Table := none
+  userToEmail : Option Table := none
+  unauthAction : Option FailAction := none
+  noMatchAction : Option FailAction := none
+  errAction : Option FailAction := none
+  fromNorm : Str → Option Str
+  authNorm : Str → Option Str
+
+/-- `table.Identity`: every key maps to itself. -/
+def identityTable : Table := .single fun k => .ok (some k)
+
+/-- `modconfig.FailAction{Reject: true}` -/
+def rejectAction : FailAction := ⟨true, false⟩
+
+/-- What `Init` leaves in the `Check` for a configuration block. -/
+def Directives.cfg (d : Directives) : Cfg where
+  checkHeader := d.checkHeader.getD true
+  emailPrepare := d.emailPrepare.getD identityTable
+  userToEmail := d.userToEmail.getD identityTable
+  unauthAction := d.unauthAction.getD rejectAction
+  noMatchAction := d.noMatchAction.getD rejectAction
+  errAction := d.errAction.getD rejectAction
+  fromNorm := d.fromNorm
+  authNorm := d.authNorm
+
+/-! ### `table.file` (internal/table/file.go)
+
+The entry lines of a well-formed file, in file order: `key: v1, v2` is `(key, [v1, v2])`, a key
+alone on its line is `(key, [""])`; comment and blank lines are no entries.  `readFile` appends
+the values of every line to the list of its key, so a key that stands on several lines has all
+their values.  `LookupMulti` answers with that list. -/
+
+abbrev Lines := List (Str × List Str)
+
+def fileLookup (ls : Lines) (k : Str) : List Str :=
+  (ls.filter (fun l => l.1 == k)).flatMap (·.2)
+
+/-- the table module over loaded entry lines (`File` implements `MultiTable`) -/
+def fileTable (ls : Lines) : Table := .multi fun k => .ok (fileLookup ls k)
+
+/-- What is at the path of the table. -/
+inductive FileContent where
+  | absent                    -- no such file
+  | unparsable                -- `readFile` fails (a line with nothing before the colon)
+  | entries (ls : Lines)      -- a well-formed file with these entry lines (none: empty / comments only)
+
+/-- What happens to the file, and the reload request (timer tick, reload hook). -/
+inductive FileOp where
+  | write (ls : Lines)
+  | damage
+  | delete
+  | reload
+
+/-- The table module: the file and the entries it has loaded (`f.m`). -/
+structure FileState where
+  file : FileContent
+  loaded : Lines
+
+/-- `Init`: `readFile`; a file that does not exist is ignored (no entries).  (`Init` fails on an
+unparsable file: not a state of a running check.) -/
+def FileState.init (ls : Option Lines) : FileState :=
+  match ls with
+  | some ls => ⟨.entries ls, ls⟩
+  | none => ⟨.absent, []⟩
+
+/-- Edits change the file only; `reload` replaces the loaded entries by what the file holds now:
+nothing when the file is gone (`f.m = map[string][]string{}`), the parsed entries of a
+well-formed file — also when there are none —, and keeps them when the file cannot be parsed. -/
+def FileState.step (s : FileState) : FileOp → FileState
+  | .write ls => { s with file := .entries ls }
+  | .damage => { s with file := .unparsable }
+  | .delete => { s with file := .absent }
+  | .reload =>
+    match s.file with
+    | .absent => { s with loaded := [] }
+    | .unparsable => s
+    | .entries ls => { s with loaded := ls }
+
+def FileState.run (s : FileState) (ops : List FileOp) : FileState := ops.foldl FileState.step s
+
+/-- the table the check consults -/
+def FileState.table (s : FileState) : Table := fileTable s.loaded
 
 /-! ### `submissionPrepare` (internal/endpoint/smtp/submission.go), as far as the author is concerned
 
